@@ -168,6 +168,9 @@ type World struct {
 	Alt bool
 	// Unjudged: the history left what the properties define (see Apply, faulted delete)
 	Unjudged bool
+	// PendingViaFault: a read-fault operation that met nothing to read was applied as the plain operation, so
+	// there are uncommitted changes the history-based Enabled functions do not know of
+	PendingViaFault bool
 	// Faults counts the operations that ran into an injected storage error. On the unchanged code such an
 	// operation changes nothing, so the dumped state would merge "after a failed operation" with "before it";
 	// whatever a CHANGED implementation remembers of a failed operation is not in the dump. The count is part
@@ -257,16 +260,28 @@ func (w *World) Apply(o Op) (fail string) {
 				v := w.Shared.value(o.Val, o.Key)
 				w.M.M[string(keyAt(o.Key))] = model.WEntry{Key: keyAt(o.Key), Value: []byte(v), Weight: Weight(v)}
 				w.Pending = true
+				w.PendingViaFault = true
 			case live && err != nil:
 				return fmt.Sprintf("delete of live key returned %v", err)
 			case live:
 				delete(w.M.M, string(keyAt(o.Key)))
 				w.Pending = true
+				w.PendingViaFault = true
 			case !errors.Is(err, wmpt.ErrNotFound):
 				return fmt.Sprintf("delete of absent key returned %v, want ErrNotFound", err)
 			}
 		}
 		return ""
+	}
+	switch o.K {
+	case 'L', 'P', 'B', 'T', 'Q', 'Y':
+		// these are only in the alphabet when nothing is uncommitted; Enabled decides that from the history and
+		// cannot know whether a read-fault operation was applied as the plain one (with state merging such a
+		// state is reached through the plain operation first and never gets here; without it, it does)
+		if w.PendingViaFault {
+			w.Unjudged = true
+			return ""
+		}
 	}
 	switch o.K {
 	case 'U':
@@ -322,6 +337,7 @@ func (w *World) Apply(o Op) (fail string) {
 		}
 		w.Commits = append(w.Commits, commitPoint{logLen: w.S.Len(), madeAt: w.S.Len(), root: w.M.Root(), weight: w.M.Total(), m: w.M.Clone()})
 		w.Pending = false
+		w.PendingViaFault = false
 		w.GCPending = 0
 		w.SinceChk++
 	case 'G':
